@@ -1,6 +1,7 @@
 package main
 
 import (
+	"errors"
 	"fmt"
 
 	"go.lstv.dev/util/date"
@@ -44,4 +45,43 @@ func foreignActivity(k int, pkg string) {
 			return
 		}
 	}
+}
+
+// configuredEpisode is a piece of program history: for a while every package's Formatter and Parser variable is
+// one of the program's own that fails, the documented fallbacks, errors and panics happen, then the defaults are
+// back. Nothing of it may be left behind: the monitored streams that follow run on a process with this past.
+// (What the fallbacks return is judged where the properties speak of it; here they only have to have happened.)
+func configuredEpisode() {
+	oDF, oRF, oSF, oZF, oUF := date.Formatter, roman.Formatter, sem.Formatter, size.Formatter, uu.Formatter
+	oDP, oRP, oSP, oZP, oUP := date.Parser, roman.Parser, sem.Parser, size.Parser, uu.Parser
+	refuse := errors.New("configured function refuses")
+	date.Formatter = func([]byte, date.Date, date.Format) ([]byte, error) { return nil, refuse }
+	roman.Formatter = func([]byte, roman.Number, roman.Format) ([]byte, error) { return nil, refuse }
+	sem.Formatter = func([]byte, sem.Ver, sem.Format) ([]byte, error) { return nil, refuse }
+	size.Formatter = func([]byte, size.Size, size.Format) ([]byte, error) { return nil, refuse }
+	uu.Formatter = func([]byte, uu.ID, uu.Format) ([]byte, error) { return nil, refuse }
+	date.Parser = func([]byte, date.Rule) (date.Date, error) { return date.Date{}, refuse }
+	roman.Parser = func([]byte, roman.Rule) (roman.Number, error) { return 0, refuse }
+	sem.Parser = func([]byte, sem.Rule) (sem.Ver, error) { return sem.Ver{}, refuse }
+	size.Parser = func([]byte, size.Rule) (size.Size, error) { return 0, refuse }
+	uu.Parser = func([]byte, uu.Rule) (uu.ID, error) { return uu.ID{}, refuse }
+	quiet := func(f func()) {
+		defer func() { _ = recover() }()
+		f()
+	}
+	for k := 0; k < 3; k++ {
+		d, n, v, z, id := date.New(2024, 2, 29), roman.Number(1994), sem.New(1, 2, 3, "rc.1", "b7"), size.Size(1536<<20), uu.ID{Higher: 1, Lower: 2}
+		quiet(func() { _ = d.String(); _, _ = d.MarshalText(); _ = fmt.Sprintf("%b %s", d, d) })
+		quiet(func() { _ = n.String(); _, _ = n.MarshalText(); _ = fmt.Sprintf("%R %l", n, n) })
+		quiet(func() { _ = v.String(); _ = v.StringTag(); _, _ = v.MarshalText(); _ = fmt.Sprintf("%t", v) })
+		quiet(func() { _ = z.String() })
+		quiet(func() { _ = z.PrettyString() })
+		quiet(func() { _ = z.PrettyHTML() })
+		quiet(func() { _, _ = z.MarshalText(); _, _ = z.MarshalJSON() })
+		quiet(func() { _ = id.String(); _ = id.URN(); _, _ = id.MarshalText(); _ = fmt.Sprintf("%u", id) })
+		quiet(func() { _ = d.UnmarshalText([]byte("2021-01-01")); _ = n.UnmarshalText([]byte("XIV")); _ = v.UnmarshalText([]byte("1.0.0")) })
+		quiet(func() { _ = z.UnmarshalText([]byte("1kB")); _ = z.UnmarshalJSON([]byte("1")); _ = id.UnmarshalText([]byte("x")) })
+	}
+	date.Formatter, roman.Formatter, sem.Formatter, size.Formatter, uu.Formatter = oDF, oRF, oSF, oZF, oUF
+	date.Parser, roman.Parser, sem.Parser, size.Parser, uu.Parser = oDP, oRP, oSP, oZP, oUP
 }
